@@ -105,6 +105,9 @@ pub fn run_explorer_ext(
             st.wall_s,
             st.capped.as_ref().map(|c| format!(" CAPPED: {c}")).unwrap_or_default()
         );
+        if !st.never_executed.is_empty() {
+            eprintln!("[{prop}] {}: {} alphabet entries never enabled: {:?}", spec.cfg.name, st.never_executed.len(), &st.never_executed[..st.never_executed.len().min(4)]);
+        }
         per_cfg.push(json!({
             "config": spec.cfg.name,
             "alphabet_size": spec.alphabet.len(),
